@@ -50,11 +50,11 @@ def _cmp(ctx, out, ref_plus, ref_minus, shifted, tol, bucket, what, scale):
         ctx.fail(bucket + ':shape', '%s: shape %s expected %s' % (what, out.shape, ref_plus.shape))
     if not shifted:
         e = float(np.abs(out - ref_plus).max()) / scale if np.all(np.isfinite(out)) else float('inf')
-        ctx.require(e <= tol, bucket, '%s: complex field differs from textbook DFT, rel err %.3g (tol %.1g)' % (what, e, tol))
+        ctx.within(e, tol, bucket, '%s: complex field differs from textbook DFT, rel err %.3g (tol %.1g)' % (what, e, tol))
         return '+'
     ep = float(np.abs(np.abs(out) - np.abs(ref_plus)).max()) / scale if np.all(np.isfinite(out)) else float('inf')
     em = float(np.abs(np.abs(out) - np.abs(ref_minus)).max()) / scale if np.all(np.isfinite(out)) else float('inf')
-    ctx.require(min(ep, em) <= tol, bucket + ':shifted',
+    ctx.within(min(ep, em), tol, bucket + ':shifted',
                 '%s: modulus differs from textbook DFT on the shifted grid, rel err %.3g (+s) / %.3g (-s) (tol %.1g)' % (what, ep, em, tol))
     return '+' if ep <= em else '-'
 
@@ -237,7 +237,7 @@ def _check_routes(case, ctx):
                             float(np.abs(np.abs(ref_p) - np.abs(ref_m)).max()) <= 10 * tol * _scale(fnum, Q),
                             'shift-sign:mdft-vs-czt', 'mdft and czt translate in opposite directions for shift=%r' % (shift,))
                 e = float(np.abs(np.abs(outs['mdft']) - np.abs(outs['czt'])).max()) / _scale(fnum, Q)
-                ctx.require(e <= 2 * tol, 'routes-differ-in-modulus', 'mdft vs czt modulus differs by %.3g for shift=%r' % (e, shift))
+                ctx.within(e, 2 * tol, 'routes-differ-in-modulus', 'mdft vs czt modulus differs by %.3g for shift=%r' % (e, shift))
             U.check_equal(f, f_before, 'input-modified', 'the transform modified its input array')
             return
         # physical routes: Q and the sample shift are derived from (dx, wavelength, efl, output dx)
